@@ -111,6 +111,9 @@ func newSess(c cfg, fs *fsim) (*sess, error) {
 		in.destroy()
 		return nil, fmt.Errorf("setup: %v", err)
 	}
+	if fs != nil && fs.record {
+		fs.stepEnd(0, c.FlushEvery)
+	}
 	return s, nil
 }
 
